@@ -51,8 +51,8 @@ Definition live_params (now dom doy seg_dur timescale : Z) (o : opts) : live :=
   let elapsed0 := now - ast0 in
   (* zero elapsed: move availabilityStartTime back one day *)
   let '(ast, elapsed) := if elapsed0 =? 0 then (ast0 - DAY, DAY) else (ast0, elapsed0) in
-  (* elapsed.total_seconds() < depth  ->  depth = int(elapsed.total_seconds()) *)
-  let tsbd := if elapsed <? tsbd0 * SEC then Z.quot elapsed SEC else tsbd0 in
+  (* elapsed.total_seconds() < depth  ->  depth = max(0, int(elapsed.total_seconds())) *)
+  let tsbd := if elapsed <? tsbd0 * SEC then Z.max 0 (Z.quot elapsed SEC) else tsbd0 in
   let default_mup := Z.max 1 (round_half_even (2 * seg_dur) timescale) in
   let mup := match o_mup o with
              | None => Some default_mup
